@@ -2,6 +2,7 @@
 direct oracles, Coq literals."""
 import os
 import sys
+import json
 import random
 import traceback
 from . import gfi
@@ -633,17 +634,31 @@ def run_case(case):
         if style != 2:
             ents = overlay(rng, ents)
 
+        clos = [None]
+
         def do_gen():
             chm = gfi.build_chm(ents, style)
             tr, w = g.importance(jax.random.key(kseed), chm, jargs)
-            return tr, (observe(tr, case), gfi.from_jax(w, "S"))
+            ob = (observe(tr, case), gfi.from_jax(w, "S"))
+            if len(jargs) >= 2:
+                # the same call through a partially applied function: g(a)(rest) must be g(a, *rest)
+                try:
+                    tr2, w2 = g(*jargs[:1]).importance(jax.random.key(kseed), chm, tuple(jargs[1:]))
+                    ob2 = (observe(tr2, case), gfi.from_jax(w2, "S"))
+                    clos[0] = None if json.dumps(ob2, sort_keys=True, default=str) == json.dumps(ob, sort_keys=True, default=str) \
+                        else {"closure": ob2, "direct": ob}
+                except AssertionError:
+                    pass
+                except Exception as e:      # noqa: BLE001
+                    clos[0] = {"closure_raised": f"{type(e).__name__}: {str(e)[:160]}"}
+            return tr, ob
         r = guarded(do_gen)
         if r[0] == "ok":
             traces.append(r[1][0])
             r = ("ok", r[1][1])
         if r[0] == "err" and ents and "Too many indices" in r[2] and switch_prefix_clash(core):
             r = ("known", "switch-branch-prefix-clash", r[2])      # K65
-        steps.append({"kind": "gen", "seed": kseed, "entries": ents, "style": style, "res": r})
+        steps.append({"kind": "gen", "seed": kseed, "entries": ents, "style": style, "res": r, "closure_differs": clos[0]})
         if r[0] == "ok" and not no_assess:
             ti = len(traces) - 1
             trg = traces[ti]
